@@ -753,3 +753,42 @@ func countASTLoops(e *Engine, fn *ssa.Function) int {
 	})
 	return n
 }
+
+// reaches: can `from` (transitively, through static calls inside the repository) call `to`?
+func (e *Engine) reaches(from, to *ssa.Function) bool {
+	seen := map[*ssa.Function]bool{}
+	var dfs func(fn *ssa.Function) bool
+	dfs = func(fn *ssa.Function) bool {
+		if fn == to {
+			return true
+		}
+		if seen[fn] || fn == nil {
+			return false
+		}
+		seen[fn] = true
+		if fn.Pkg == nil || !strings.HasPrefix(fn.Pkg.Pkg.Path(), "github.com/pierrec/lz4") {
+			return false
+		}
+		for _, b := range fn.Blocks {
+			for _, in := range b.Instrs {
+				var cc *ssa.CallCommon
+				switch c := in.(type) {
+				case *ssa.Call:
+					cc = c.Common()
+				case *ssa.Defer:
+					cc = c.Common()
+				case *ssa.Go:
+					cc = c.Common()
+				}
+				if cc == nil {
+					continue
+				}
+				if callee := cc.StaticCallee(); callee != nil && dfs(callee) {
+					return true
+				}
+			}
+		}
+		return false
+	}
+	return dfs(from)
+}
